@@ -215,7 +215,8 @@ class SwitchCodeGenerator:
         if isinstance(field_type, IntegerType):
             if not is_decimal_integer(case_value):
                 raise RuntimeError(f'"{case_value}" is not a valid integer value.')
-            return case_value
+            # "007" is a valid integer in the protocol files, but not a valid Python literal.
+            return str(int(case_value))
 
         if isinstance(field_type, EnumType):
             ordinal_value = try_parse_int(case_value)
